@@ -843,3 +843,122 @@ func init() {
 		},
 	})
 }
+
+func init() {
+	register(&Rule{
+		Name: "ctx-acquire-released", Props: []string{"C12", "C19"}, Engine: "PATH", Floor: 4,
+		Doc: "every successful acquire / acquireFor of a request's Ctx is followed, on every path to a return of the acquiring function, by a release (directly, through a helper or closure that releases, or by a deferred one that has been registered): a path that returns with the Ctx held wedges the RoundTrip that has to take it back, past any timeout",
+		Run: func(p *Prog, r *Out) {
+			n := 0
+			for _, f := range p.allFuncs() {
+				if f.Pkg != p.SPkg || f.Blocks == nil {
+					continue
+				}
+				fn := p.fname(f)
+				if fn == "(*Ctx).acquire" || fn == "(*Ctx).acquireFor" {
+					continue
+				}
+				// releases in this function: direct, via helper, or deferred
+				stop := map[ssa.Instruction]bool{}
+				for _, b := range f.Blocks {
+					for _, in := range b.Instrs {
+						switch x := in.(type) {
+						case *ssa.Call:
+							if p.releasesCtx(x) {
+								stop[in] = true
+							}
+						case *ssa.Defer:
+							name := p.calleeName(x.Common())
+							if name == "(*Ctx).release" {
+								stop[in] = true
+							} else if g := x.Common().StaticCallee(); g != nil && g.Blocks != nil {
+								for _, b2 := range g.Blocks {
+									for _, y := range b2.Instrs {
+										if c2, ok := y.(*ssa.Call); ok && p.releasesCtx(c2) {
+											stop[in] = true
+										}
+									}
+								}
+							} else if !x.Common().IsInvoke() {
+								for _, g := range p.closureOf(x.Common().Value, f, 4) {
+									for _, b2 := range g.Blocks {
+										for _, y := range b2.Instrs {
+											if c2, ok := y.(*ssa.Call); ok && p.releasesCtx(c2) {
+												stop[in] = true
+											}
+										}
+									}
+								}
+							}
+						}
+					}
+				}
+				for _, b := range f.Blocks {
+					for _, in := range b.Instrs {
+						c, ok := in.(*ssa.Call)
+						if !ok {
+							continue
+						}
+						name := p.calleeName(c.Common())
+						if name != "(*Ctx).acquire" && name != "(*Ctx).acquireFor" {
+							continue
+						}
+						// the If that tests it
+						var tblock *ssa.BasicBlock
+						for _, ref := range *c.Referrers() {
+							cond := ssa.Value(c)
+							neg := false
+							if u, ok := ref.(*ssa.UnOp); ok && u.Op == token.NOT {
+								neg = true
+								for _, r2 := range *u.Referrers() {
+									if iff, ok := r2.(*ssa.If); ok {
+										tblock = iff.Block().Succs[1]
+									}
+								}
+								continue
+							}
+							if iff, ok := ref.(*ssa.If); ok && iff.Cond == cond && !neg {
+								tblock = iff.Block().Succs[0]
+							}
+						}
+						n++
+						r.fn(fn)
+						key := fn + " gives back the Ctx it took (" + strings.TrimPrefix(name, "(*Ctx).") + ")"
+						if tblock == nil {
+							r.undecided(key, p.ipos(in), "the result of "+name+" is not tested by a branch")
+							continue
+						}
+						// a function that hands the held Ctx to its caller on purpose
+						if why, ok := ctxHandsOn[fn]; ok {
+							r.ok(key, p.ipos(in), "exempt: "+why)
+							continue
+						}
+						leak := ""
+						for _, b2 := range f.Blocks {
+							if b2 == f.Recover {
+								continue
+							}
+							for _, y := range b2.Instrs {
+								ret, ok := y.(*ssa.Return)
+								if !ok {
+									continue
+								}
+								if reachesInstr(tblock, ret, stop) {
+									leak = p.ipos(ret)
+								}
+							}
+						}
+						r.check(leak == "", key, p.ipos(in), "a release on every path from the successful acquisition to a return",
+							fmt.Sprintf("%s can return (at %s) still holding the Ctx it took with %s: the RoundTrip of that request blocks in takeBack for good, whatever MaxResponseTime says, and so does everything else that needs the Ctx", fn, leak, name))
+					}
+				}
+			}
+			if n == 0 {
+				r.bad("acquisitions", "?", "no acquire / acquireFor call found: the rule has lost its anchors")
+			}
+		},
+	})
+}
+
+// functions that return holding the Ctx by design: their callers release it.
+var ctxHandsOn = map[string]string{}
